@@ -23,6 +23,7 @@
  *       point executes (S) in a state other than BUSY: at most one execution of (S) per process and taskpool.
  */
 #include "verif.h"
+#define VERIF_RG_POST_STEP   /* environment also acts after each of my atomic operations */
 #include "verif_rg.h"
 #include "parsec/parsec_config.h"
 #include "parsec/parsec_internal.h"
